@@ -4,20 +4,27 @@ import contracts.harness_general  # noqa
 import contracts.harness_chunk  # noqa
 import contracts.chunk as CH
 import contracts.general as G
+import contracts.standins_chunk as B
 
 PROVED = [CH.split_array, CH.chunk_split, CH.chunk_init_rows, CH.chunk_init_none, CH.chunk_init_other, G.diff]
 
 PROPERTY = Property(
     "C07", "proof",
     contracts=PROVED,
-    standins=[StandIn("replay-scope:" + c.qualname + (c.variant or ""), c, c.harness,
+    standins=[StandIn("split / concatenate round trip incl. run bookkeeping", B.split_concat_roundtrip, B.split_concat_roundtrip.harness),
+              StandIn("concatenate", B.concatenate, B.concatenate.harness),
+              StandIn("merge", B.merge, B.merge.harness),
+              StandIn("rechunker stream", B.rechunker_stream, B.rechunker_stream.harness),
+              StandIn("get_splits", B.get_splits, B.get_splits.harness)]
+    + [StandIn("replay-scope:" + c.qualname + (c.variant or ""), c, c.harness,
                       budget={"quick": 2000, "thorough": 150000})
               for c in PROVED if c.harness is not None],
     trusted=["pyvc VC generator and value model", "z3 5.1.0 / cvc5 1.4.0",
              "library models of len/min/max/slicing/enumerate/np.empty/ndarray.max/.copy()"],
     assumptions=["A1 integers are mathematical", "A2 numba compiles the verified Python source faithfully",
                  "strax.endtime(x) is a per-row value 'endtime'",
-                 "sub/superrun bookkeeping of Chunk.split is abstracted (ValueError from it is allowed, see C14)",
+                 "sub/superrun bookkeeping of Chunk.split is abstracted in the proof (ValueError from it is allowed); "
+                 "Chunk.concatenate, Chunk.merge, Rechunker and the run bookkeeping are NOT proved: bounded stand-ins only",
                  "the text of f-strings is dropped: formatting an error message is assumed not to raise"],
     explanation="laws of chunking: split_array and Chunk.split (split refuses or moves to the latest admissible time exactly "
                 "when a row straddles; rows concatenate to the original; every row on one side), the constructor's range "
